@@ -235,7 +235,10 @@ impl Engine for HrEngine {
                         let rank = IDS.iter().position(|x| x == &id).unwrap();
                         l.push(format!("src.put {} {} {} 0", hexs(id), hexs("s"), hexs(&dag_script_k(rng, rank, true, true))));
                         l.push(format!("src.put {} {} {} 0", hexs(id), hexs("a"), hexs(&format!("ok:{}", rng.range(50, 99)))));
-                        l.push(format!("notify {} {}", ev_file(id, "s"), ev_file(id, "a")));
+                        // the files may be new: their directories are notified as well (a creation changes the listing)
+                        let mut evs = vec![ev_file(id, "s"), ev_file(id, "a")];
+                        evs.extend(ev_ancestors(id));
+                        l.push(format!("notify {}", evs.join(" ")));
                     }
                     l.push("enhance".into());
                 }
